@@ -40,9 +40,9 @@ def bytes_int(ctx, n, le=False):
 
 def spec(h, ctx, ex, params):
     obs = []
-    if h in ("VerifC16SetBytes", "VerifC16SetBytesLE", "VerifC16SetBytesLECanonical"):
+    if h in ("VerifC16SetBytes", "VerifC16SetBytesLE", "VerifC16SetBytesLECanonical", "VerifC16SetBigInt"):
         n = params["n"]
-        le = h != "VerifC16SetBytes"
+        le = h not in ("VerifC16SetBytes", "VerifC16SetBigInt")
         I = bytes_int(ctx, n, le)
         Z = intval(list(note(ctx, "z")))
         V = z3.Int("Vspec")
@@ -63,6 +63,13 @@ def spec(h, ctx, ex, params):
             obs.append(ob("canonical decoder: accepted input decodes to its integer value", z3.And(ok, XA != I)))
             obs.append(ob("canonical decoder: result is the Montgomery form of the decoded value", z3.And(ok, Z != MONT(XA))))
             obs.append(ob("canonical decoder: returns nil exactly on error", b_term(note(ctx, "retnil")) == ok))
+        elif h == "VerifC16SetBigInt":
+            obs.append(ob("SetBigInt(r) is zero", z3.And(I == Q, Z != 0)))
+            obs.append(ob("SetBigInt: the value converted to Montgomery form is v mod r", z3.And(I != Q, XA != V)))
+            obs.append(ob("SetBigInt: result is the Montgomery form of that value", z3.And(I != Q, Z != MONT(XA))))
+            obs.append(ob("decoded element fully reduced", b_not(z3.And(Z >= 0, Z < Q))))
+            obs += frame_obligations(ex)
+            return obs
         else:
             obs.append(ob("reducing decoder: the value converted to Montgomery form is int(b) mod r", XA != V))
             obs.append(ob("reducing decoder: result is the Montgomery form of that value", Z != MONT(XA)))
@@ -103,10 +110,10 @@ def spec(h, ctx, ex, params):
 def judge(h, params, values, notes):
     Rinv = pow(1 << 256, -1, Q)
     Rm = (1 << 256) % Q
-    if h in ("VerifC16SetBytes", "VerifC16SetBytesLE", "VerifC16SetBytesLECanonical"):
+    if h in ("VerifC16SetBytes", "VerifC16SetBytesLE", "VerifC16SetBytesLECanonical", "VerifC16SetBigInt"):
         n = params["n"]
         bs = [int(values.get("b[%d]" % i, 0)) for i in range(n)]
-        I = int.from_bytes(bytes(bs), "little" if h != "VerifC16SetBytes" else "big")
+        I = int.from_bytes(bytes(bs), "little" if h not in ("VerifC16SetBytes", "VerifC16SetBigInt") else "big")
         z = pyval(notes["z"][0])
         if h == "VerifC16SetBytesLECanonical":
             ok = bool(notes["ok"][0])
@@ -147,9 +154,8 @@ def make_replay(h, params):
     return cb
 
 
-def run(tier, seed):
+def load(rep):
     global PROG, BUILD, GLOBALS
-    rep = Report("C16", tier, seed)
     BUILD = D.Build("c16", [FR], [FR + ".*"], allow_extra=["encoding/binary"])
     try:
         PROG = BUILD.load()
@@ -157,16 +163,32 @@ def run(tier, seed):
         GLOBALS = BUILD.dump_globals({FR: ["qElement", "rSquare", "_modulus"]})
     except Exception as e:  # noqa
         rep.inconclusive_group("load", str(e))
+        return False
+    return True
+
+
+def run_decoders(rep, jobs):
+    """used by C12/C13: the decoder harnesses with their write-monitor, purity and pool-protocol obligations"""
+    def on_result(a, item):
+        rep.add(item["group"], item["recs"], _Info(item["info"]), key_prefix=item["harness"], sample=False, replay=make_replay(item["harness"], item["params"]))
+    run_jobs(rep, job, jobs, name=lambda a: "%s %s" % a, on_result=on_result)
+
+
+def run(tier, seed):
+    rep = Report("C16", tier, seed)
+    if not load(rep):
         return rep.finish()
     lens = list(range(0, 65)) if tier == "thorough" else [0, 1, 7, 8, 9, 24, 31, 32, 33, 40, 63, 64]
     rep.bounds = {"byte strings": "every content of each length in %s (length concrete per query)" % lens, "scalars": "all limb values < r",
-                  "receiver": "arbitrary previous content", "outside": "lengths > 64; fp.BytesLE (dependency code)"}
+                  "receiver": "arbitrary previous content", "SetBigInt": "every non-negative integer of the listed byte lengths (built with big.Int.SetBytes); caller's integer compared before/after",
+                  "outside": "lengths > 64; negative big.Int arguments of SetBigInt; fp.BytesLE (dependency code)"}
     rep.assumptions = ["fr.mul(z,x,&rSquare)=MONT(x) and fr.fromMont=UNMONT, mutually inverse bijections on [0,r) (limb-level contracts proved in C15; bijectivity is the paper step)",
                        "math/big.Int is a mathematical integer; sync.Pool.Get returns a big.Int with arbitrary content",
                        "encoding/binary byte-order helpers executed from their SSA"]
     jobs = []
     for h in ("VerifC16SetBytes", "VerifC16SetBytesLE", "VerifC16SetBytesLECanonical"):
         jobs += [(h, {"n": n}) for n in lens]
+    jobs += [("VerifC16SetBigInt", {"n": n}) for n in (lens if tier == "thorough" else [0, 1, 8, 31, 32, 33, 40])]
     jobs += [("VerifC16RoundTripBE", {}), ("VerifC16RoundTripLE", {}), ("VerifC16BytesLayout", {})]
 
     def on_result(a, item):
